@@ -22,6 +22,7 @@ fn random_env(r: &mut Prng, pool_heavy: bool) -> Env {
         entropy_seed: 1 + (r.next_u64() >> 16),
         clock_seed: 1 + (r.next_u64() >> 16),
         context: *r.pick(&[Context::External, Context::InWorker, Context::Siblings, Context::Warm]),
+        cpus: *r.pick(&[1usize, 1, 2, 3, 4]),
         replay: None,
     }
 }
@@ -35,6 +36,7 @@ fn envs_for(r: &mut Prng, uses_pool: bool, thorough: bool) -> Vec<Env> {
         Env { clock_seed: 1 + (r.next_u64() >> 16), ..e0.clone() },
         Env { context: Context::InWorker, ..e0.clone() },
         Env { context: Context::Warm, ..e0.clone() },
+        Env { cpus: *r.pick(&[2usize, 3, 4]), ..e0.clone() },
         Env { threads: *r.pick(&[2usize, 3, 4, 5]), policy: "eager-steal".into(), sched_seed: r.next_u64() >> 16, ..e0.clone() },
         Env { threads: 16, policy: "chaos".into(), sched_seed: r.next_u64() >> 16, ..e0.clone() },
         // all together
@@ -168,6 +170,9 @@ fn cause_of(fail: &Env, e0: &Env) -> String {
     if fail.context != e0.context {
         c.push("context");
     }
+    if fail.cpus != e0.cpus {
+        c.push("cpus");
+    }
     if c.is_empty() {
         c.push("history");
     }
@@ -227,6 +232,7 @@ fn minimise(scenario: &str, p: P, fail_env: &Env, prelude_fail: &[Job], prelude_
     // B: reset one dimension at a time towards env0
     let resets: Vec<Box<dyn Fn(&Env) -> Env>> = vec![
         Box::new(|e: &Env| Env { context: Context::External, ..e.clone() }),
+        Box::new(|e: &Env| Env { cpus: 1, ..e.clone() }),
         Box::new(|e: &Env| Env { clock_seed: 0, ..e.clone() }),
         Box::new(|e: &Env| Env { entropy_seed: 0, ..e.clone() }),
         Box::new(|e: &Env| Env { threads: 1, policy: "sequential".into(), sched_seed: 0, replay: None, ..e.clone() }),
@@ -393,15 +399,17 @@ pub fn check(tier: &str, seed: u64, only: Option<&str>) -> i32 {
                     || (stats.hashkey_draws > 0 && env.entropy_seed != 0)
                     || (stats.clock_reads > 0 && env.clock_seed != 0)
                     || (r.kth_in_process > 0 && planned.meta[i].2)
-                    || env.context == Context::Warm;
+                    || env.context == Context::Warm
+                    || env.cpus != 1;
                 if nontrivial {
                     distinct.insert((*si, planned.meta[i].1.seed, planned.meta[i].1.size as u8, stats.sched_hash, env.entropy_seed, env.clock_seed, env.context));
                 }
                 let col = format!(
-                    "T={}{}{}{}",
+                    "T={}{}{}{}{}",
                     if env.threads == 1 { "1".to_string() } else { format!("{}:{}", env.threads, env.policy) },
                     if env.entropy_seed != 0 { " +entropy" } else { "" },
                     if env.clock_seed != 0 { " +clock" } else { "" },
+                    if env.cpus != 1 { " +cpus" } else { "" },
                     match env.context {
                         Context::External => "",
                         Context::InWorker => " +inworker",
